@@ -235,6 +235,9 @@ def run(ctx):
     ctx.run_rule("T9", rule_T9, f)
     # the local chain needs a cleared clone and a flushing Drop
     ctx.run_rule("T9b", lambda c: C12.rule_local_histogram(c, f, "T9b"))
+    # T6 once more with rustc as the oracle: using a timer after a stop method must be a borrow-check error
+    from pvrules import witness
+    ctx.run_rule("T10", lambda c: witness.rule_witnesses(c, "T10", "c18_", 3))
     if ctx.tier == "thorough":
         g = ctx.facts("nightlyproc")
         for ty in TIMERS:
